@@ -74,6 +74,23 @@ mod mac_basic__redecl;
 mod mac_capture__pari;
 mod mac_gensym_disj__ser;
 mod mac_disj__exp;
+mod rnd_core_03__ser;
+mod rnd_core_05__pari;
+mod rnd_core_08__par;
+mod rnd_core_11__ser;
+mod rnd_core_13__pari;
+mod rnd_core_16__par;
+mod rnd_core_19__ser;
+mod rnd_core_21__pari;
+mod rnd_core_24__par;
+mod rnd_core_27__ser;
+mod rnd_core_29__pari;
+mod rnd_agg_02__par;
+mod rnd_agg_05__ser;
+mod rnd_agg_07__pari;
+mod rnd_agg_10__par;
+mod rnd_agg_13__ser;
+mod rnd_agg_15__pari;
 
 fn lookup(name: &str) -> fn() -> Box<dyn Driven> {
    match name {
@@ -143,6 +160,23 @@ fn lookup(name: &str) -> fn() -> Box<dyn Driven> {
       "mac_capture__pari" => mac_capture__pari::make,
       "mac_gensym_disj__ser" => mac_gensym_disj__ser::make,
       "mac_disj__exp" => mac_disj__exp::make,
+      "rnd_core_03__ser" => rnd_core_03__ser::make,
+      "rnd_core_05__pari" => rnd_core_05__pari::make,
+      "rnd_core_08__par" => rnd_core_08__par::make,
+      "rnd_core_11__ser" => rnd_core_11__ser::make,
+      "rnd_core_13__pari" => rnd_core_13__pari::make,
+      "rnd_core_16__par" => rnd_core_16__par::make,
+      "rnd_core_19__ser" => rnd_core_19__ser::make,
+      "rnd_core_21__pari" => rnd_core_21__pari::make,
+      "rnd_core_24__par" => rnd_core_24__par::make,
+      "rnd_core_27__ser" => rnd_core_27__ser::make,
+      "rnd_core_29__pari" => rnd_core_29__pari::make,
+      "rnd_agg_02__par" => rnd_agg_02__par::make,
+      "rnd_agg_05__ser" => rnd_agg_05__ser::make,
+      "rnd_agg_07__pari" => rnd_agg_07__pari::make,
+      "rnd_agg_10__par" => rnd_agg_10__par::make,
+      "rnd_agg_13__ser" => rnd_agg_13__ser::make,
+      "rnd_agg_15__pari" => rnd_agg_15__pari::make,
       _ => panic!("no such program variant in this shard: {}", name),
    }
 }
